@@ -673,14 +673,22 @@ def _est_setup(est, seed):
         if method == "inner-product":
             steps[1] = ("transform", lambda e, c: e.transform(method="InnPro"))
         if est == "ufpca_pace":
-            steps[1] = ("transform", lambda e, c: e.transform(c["data"], method="PACE"))
+            steps[1] = ("transform|default", lambda e, c: e.transform(c["data"], method="PACE"))
             steps.insert(2, ("transform", lambda e, c: e.transform(method="PACE")))
+            steps.insert(3, ("transform|tol", lambda e, c: e.transform(c["data"], method="PACE", tol=50.0)))
+            steps.insert(4, ("transform|default", lambda e, c: e.transform(c["data"], method="PACE")))
+        if est == "ufpca_cov":
+            steps[1] = ("transform|default", lambda e, c: e.transform(c["data"], method="NumInt"))
+            steps.insert(2, ("transform|simpson", lambda e, c: e.transform(c["data"], method="NumInt", integration_method="simpson")))
+            steps.insert(3, ("transform|default", lambda e, c: e.transform(c["data"], method="NumInt")))
         return mk, dict(data=data, alt=dict(data=richer(seed))), steps, "UFPCA"
     if est == "ufpca_pace_irregular":
         data = make_subject("irregular", seed)
         mk = lambda: UFPCA(n_components=2, method="covariance")  # noqa: E731
         steps = [("fit", lambda e, c: e.fit(c["data"], method_smoothing="LP")),
-                 ("transform", lambda e, c: e.transform(c["data"], method="PACE", method_smoothing="LP")),
+                 ("transform|default", lambda e, c: e.transform(c["data"], method="PACE", method_smoothing="LP")),
+                 ("transform|tol", lambda e, c: e.transform(c["data"], method="PACE", method_smoothing="LP", tol=50.0)),
+                 ("transform|default", lambda e, c: e.transform(c["data"], method="PACE", method_smoothing="LP")),
                  ("inverse_transform", lambda e, c: e.inverse_transform(c["scores"]))]
         return mk, dict(data=data), steps, "UFPCA"
     if est == "ufpca_2d":
@@ -826,6 +834,7 @@ def _run_steps(mk, ctx, steps, readonly=False):
         ro.__enter__()
     try:
         for name, f in steps:
+            name = name.split("|")[0]
             np.random.seed(777)
             c = dict(ctx)
             c["scores"] = scores
@@ -834,7 +843,7 @@ def _run_steps(mk, ctx, steps, readonly=False):
                 exc = None
             except Exception as ex:  # noqa: BLE001
                 r, exc = None, ex
-            if name == "transform" and exc is None:
+            if name == "transform" and exc is None and scores is None:
                 scores = np.array(r, copy=True)
                 if readonly:
                     scores.flags.writeable = False
@@ -861,18 +870,27 @@ def _est(case):
     scores = None
     recs = []
     earlier = []
+    by_tag = {}
     for name, f in steps:
+        full, name = name, name.split("|")[0]
         entry = f"{cls}.{name}"
         np.random.seed(777)
         c = dict(ctx)
         c["scores"] = scores
         before_ctx = {k: U.deep(v) for k, v in ctx.items()}
         before_scores = U.deep(scores)
+        before_state = U.deep(dict(e.__dict__), skip_cache=False) if (name.split("|")[0] != "fit" and steps[0][0] == "fit") else None
         try:
             r = f(e, c)
             exc = None
         except Exception as ex:  # noqa: BLE001
             r, exc = None, ex
+        if before_state is not None:
+            # a read-only call (transform / inverse_transform / predict) must leave EVERY attribute of the fitted
+            # estimator — private ones included — as it was
+            d = U.diff_paths(before_state, U.deep(dict(e.__dict__), skip_cache=False))
+            if d:
+                viol.append(_viol("fitted_state_unchanged", entry, f"{name} changed the state of the fitted estimator at {d[:3]}: later calls do not behave like on a freshly fitted twin", ["estimator_state_changed"]))
         if U.diff_paths(before_scores, U.deep(scores)):
             viol.append(_viol("inputs_unchanged", entry, f"{name} changed the score array it was given", ["input_mutated"]))
         recs.append(dict(step=name, status="ok" if exc is None else "error:" + err_class(exc), msg="" if exc is None else str(exc)[:100]))
@@ -898,10 +916,16 @@ def _est(case):
             if U.diff_paths(es, U.deep(er, skip_cache=True)):
                 viol.append(_viol("earlier_results_unchanged", entry, f"{name} changed the result returned earlier by {en}", ["result_mutated"]))
         if exc is None:
-            if name == "transform":
+            if name == "transform" and (scores is None or "|" not in full or full.endswith("|default")):
                 scores = np.array(r, copy=True)
             if r is not None:
                 earlier.append((name, r, U.deep(r, skip_cache=True)))
+                if "|" in full:
+                    # X(default) … X(other options) … X(default): calls with the same options must agree bitwise
+                    dd = _nocache(U.deep(r, skip_cache=True))
+                    if full in by_tag and U.diff_paths(by_tag[full], dd):
+                        viol.append(_viol("repeatable", entry, f"{full.replace('|', ' with options ')}: the same call gives another result after an intermediate call with other option values (differs at {U.diff_paths(by_tag[full], dd)[:3]})", ["second_call_differs", "option_call_left_state"]))
+                    by_tag.setdefault(full, dd)
             if name == "fit":
                 # what the fitted estimator hands out (covariance, eigenfunctions, mean, …) are earlier results too
                 for hn, hv in _handed_out(e).items():
